@@ -115,3 +115,9 @@ class TimerRec:
 
     def __repr__(self):
         return "TimerRec"
+
+
+class SuperProxy:
+    """zero-argument super(): attribute lookup continues after `cls` in the MRO of the instance"""
+    def __init__(self, cls, obj):
+        self.cls, self.obj = cls, obj
